@@ -811,7 +811,7 @@ class Engine:
     # obligations
     # ======================================================================
     def oblige(self, st: State, kind, line, goal, props=None, label="",
-               extra_hyps=()):
+               extra_hyps=(), no_pc=False):
         goal = z3.simplify(goal) if z3.is_expr(goal) else z3.BoolVal(bool(goal))
         if z3.is_true(goal):
             # still count trivially-true obligations: they were generated
@@ -837,7 +837,8 @@ class Engine:
             return
         self._obl_keys.add(key)
         ob = Obligation(name + f"#p{pathid}" + (f"~{o}" if o else ""),
-                        list(st.pc) + list(extra_hyps), goal,
+                        ([] if no_pc else list(st.pc)) + list(extra_hyps),
+                        goal,
                         list(props if props is not None else fc.props),
                         fc.key, kind, line, pathid)
         self.obligations.append(ob)
